@@ -32,6 +32,8 @@ def shards(tier, seed):
     per = 110 if tier == 'quick' else 15000
     budget = 40 if tier == 'quick' else 500
     _out = [{'kind': 'random', 'count': per, 'budget_s': budget, 'max_g': 14 if tier == 'quick' else 40} for _ in range(16)]
+    _out.append({'kind': 'deep', 'count': 2 if tier == 'quick' else 20, 'budget_s': budget,
+                 'depths': netgen.DEEP_QUICK if tier == 'quick' else netgen.DEEP_THOROUGH})
     if tier == 'thorough':
         _out.append({'kind': 'suite', 'select': ['tests'], 'budget_s': 900})
     return _out
@@ -448,8 +450,11 @@ def _plain(l):
 def gen_case(rng, spec):
     shape = rng.choice(netgen.SHAPES)
     net = netgen.rand_net(rng, shape=shape, max_in=5, max_g=spec.get('max_g', 14), max_arity=4, const_operands=False)
-    return {'kind': 'random', 'shape': shape, 'net': netgen.describe(net), 'rseed': rng.getrandbits(32),
+    case = {'kind': 'random', 'shape': shape, 'net': netgen.describe(net), 'rseed': rng.getrandbits(32),
             'shuffle': rng.random() < 0.3, 'edited': rng.random() < 0.3}
+    if spec.get('kind') == 'deep':   # a long dependency chain
+        case.update(net=netgen.deep_description(rng, spec['depths']), shape='deep', shuffle=False, edited=False, cyclic=False)
+    return case
 
 
 def run_shard(spec, ctx):
